@@ -373,30 +373,30 @@ Proof.
   destruct (k0 =? k) eqn:E; [|lia]. apply Z.eqb_eq in E. subst. rewrite H, get_conn_getc. lia.
 Qed.
 
-Definition frame (st st1 : state) : Prop :=
+Definition sframe (st st1 : state) : Prop :=
   timers st1 = timers st /\ items st1 = items st /\ gcs st1 = gcs st /\ seen st1 = seen st /\
   next_tm st1 = next_tm st /\ panicked st1 = panicked st /\ threads st1 = threads st /\
   (forall k, c_nextid (getc (conns st) k) <= c_nextid (getc (conns st1) k)).
 
 Lemma frame_eqs : forall st st1, timers st1 = timers st -> items st1 = items st -> gcs st1 = gcs st -> seen st1 = seen st ->
-  next_tm st1 = next_tm st -> panicked st1 = panicked st -> threads st1 = threads st -> conns st1 = conns st -> frame st st1.
+  next_tm st1 = next_tm st -> panicked st1 = panicked st -> threads st1 = threads st -> conns st1 = conns st -> sframe st st1.
 Proof.
-  intros st st1 H1 H2 H3 H4 H5 H6 H7 H8. unfold frame. rewrite H8.
+  intros st st1 H1 H2 H3 H4 H5 H6 H7 H8. unfold sframe. rewrite H8.
   split; [exact H1|]. split; [exact H2|]. split; [exact H3|]. split; [exact H4|]. split; [exact H5|].
   split; [exact H6|]. split; [exact H7|]. intro k. lia.
 Qed.
 
-Lemma frame_put : forall st k cn, c_nextid cn = c_nextid (get_conn st k) -> frame st (put_conn st k cn).
+Lemma frame_put : forall st k cn, c_nextid cn = c_nextid (get_conn st k) -> sframe st (put_conn st k cn).
 Proof.
-  intros st k cn H. unfold frame. repeat (split; [reflexivity|]). intro k0. apply nextid_put. exact H.
+  intros st k cn H. unfold sframe. repeat (split; [reflexivity|]). intro k0. apply nextid_put. exact H.
 Qed.
 
-Lemma exec_pure_frame : forall cf st i room st1 pushed, is_pure i = true -> exec cf st i room = (st1, pushed) -> frame st st1.
+Lemma exec_pure_frame : forall cf st i room st1 pushed, is_pure i = true -> exec cf st i room = (st1, pushed) -> sframe st st1.
 Proof.
   intros cf st i room st1 pushed Hp H.
-  assert (Hsame : forall s p, (s, p) = (st1, pushed) -> s = st -> frame st st1).
+  assert (Hsame : forall s p, (s, p) = (st1, pushed) -> s = st -> sframe st st1).
   { intros s p Hs He. inversion Hs. subst. apply frame_eqs; reflexivity. }
-  assert (Hput : forall k cn p, (put_conn st k cn, p) = (st1, pushed) -> c_nextid cn = c_nextid (get_conn st k) -> frame st st1).
+  assert (Hput : forall k cn p, (put_conn st k cn, p) = (st1, pushed) -> c_nextid cn = c_nextid (get_conn st k) -> sframe st st1).
   { intros k cn p Hs He. inversion Hs. subst. apply frame_put. exact He. }
   destruct i; try discriminate; cbn [exec] in H.
   - destruct (e_start e =? 0); [inversion H; subst; apply frame_eqs; reflexivity|].
